@@ -11,12 +11,18 @@
 //!            interval task run in between: the interval has fired but its task has not been polled
 //!            when the call is made (the task then finds both its tick and the reset/stop ready;
 //!            before fix F17 select! picked one at random, the fix makes both select!s biased)
+//!   B<cc> / B<ccc>   two / three calls out of s, r, x back to back, with NO await in between (the task a `start`
+//!            spawned has not been polled once when the next call is made), then the harness yields
+//!   q        probe: `q<is_running()><a tick is queued><number of live tasks on the runtime>`
 //! run on a current-thread runtime with the clock paused; after every op the harness yields so
 //! that the spawned interval task settles.  Reply: one token per `w` op, `t<v>@<now>` (tick
 //! carrying the Instant `v`, observed at clock `now`, both in ms since the timer was created)
-//! or `n@<now>` (timeout); the run stops with the token `pre` before the first op that would
-//! break the property's precondition (a tick falling due while the previous one has not been
+//! or `n@<now>` (timeout), one per `q` op; the token `pre` is put before the first op that
+//! breaks the property's precondition (a tick falling due while the previous one has not been
 //! awaited) - that is decided by the reference bookkeeping below, not by the implementation.
+//! The run goes on after it (blocked sender, Interval burst: compared with the model); the oracle
+//! judges the history up to that point only.  Interval 0 (`Session::new` creates such timers for
+//! hold time 0..2) is allowed: `tokio::time::interval(0)` panics inside the spawned task.
 use crate::common::*;
 use routecore::bgp::fsm::VerifTimer;
 use std::time::Duration;
@@ -24,7 +30,7 @@ use std::time::Duration;
 pub struct C20;
 
 #[derive(Clone, Copy, Debug, PartialEq)]
-enum Op { Start, Reset, Stop, Adv(u64), Wait(u64), AdvNs(u64) }
+enum Op { Start, Reset, Stop, Adv(u64), Wait(u64), AdvNs(u64), Probe, Burst([u8; 3], u8) }
 
 fn parse_ops(s: &str) -> Option<Vec<Op>> {
     if s == "-" { return Some(vec![]); }
@@ -32,7 +38,14 @@ fn parse_ops(s: &str) -> Option<Vec<Op>> {
     for t in s.split(',') {
         let num = |x: &str| -> Option<u64> { if x.is_empty() || x.len() > 7 || !x.bytes().all(|b| b.is_ascii_digit()) { None } else { x.parse().ok() } };
         match t {
-            "s" => out.push(Op::Start), "r" => out.push(Op::Reset), "x" => out.push(Op::Stop),
+            "s" => out.push(Op::Start), "r" => out.push(Op::Reset), "x" => out.push(Op::Stop), "q" => out.push(Op::Probe),
+            _ if t.starts_with('B') => {
+                let b = &t.as_bytes()[1..];
+                if !(b.len() == 2 || b.len() == 3) || !b.iter().all(|c| matches!(c, b's' | b'r' | b'x')) { return None; }
+                let mut a = [0u8; 3];
+                a[..b.len()].copy_from_slice(b);
+                out.push(Op::Burst(a, b.len() as u8));
+            }
             _ if t.starts_with("Ar") => { out.push(Op::AdvNs(num(&t[2..])?)); out.push(Op::Reset); }
             _ if t.starts_with("Ax") => { out.push(Op::AdvNs(num(&t[2..])?)); out.push(Op::Stop); }
             _ if t.starts_with("As") => { out.push(Op::AdvNs(num(&t[2..])?)); out.push(Op::Start); }
@@ -49,7 +62,7 @@ fn parse_ops(s: &str) -> Option<Vec<Op>> {
 enum Tok { One(Op), Then(u64, Op) }
 
 fn show_op(o: &Op) -> String {
-    match o { Op::Start => "s".into(), Op::Reset => "r".into(), Op::Stop => "x".into(), Op::Adv(d) => format!("a{}", d), Op::Wait(d) => format!("w{}", d), Op::AdvNs(d) => format!("A{}", d) }
+    match o { Op::Start => "s".into(), Op::Reset => "r".into(), Op::Stop => "x".into(), Op::Probe => "q".into(), Op::Burst(a, n) => format!("B{}", std::str::from_utf8(&a[..*n as usize]).unwrap()), Op::Adv(d) => format!("a{}", d), Op::Wait(d) => format!("w{}", d), Op::AdvNs(d) => format!("A{}", d) }
 }
 fn show_tok(t: &Tok) -> String {
     match t { Tok::One(o) => show_op(o), Tok::Then(d, o) => format!("A{}{}", show_op(o), d) }
@@ -69,7 +82,7 @@ impl Ideal {
     /// would executing `op` let a tick fall due while the previous one is un-awaited?
     fn violates(&self, op: &Op) -> bool {
         if let Op::Adv(d) | Op::AdvNs(d) = op {
-            if !self.running { return false; }
+            if !self.running || self.i == 0 { return false; }
             let target = self.now + d;
             if self.next_due > target { return false; }
             let k = (target - self.next_due) / self.i + 1;
@@ -83,6 +96,10 @@ impl Ideal {
             Op::Start => { self.running = true; self.next_due = self.now + self.i; self.outstanding = false; self.last_start = Some(self.now); }
             Op::Reset => { self.last_reset = Some(self.now); if self.running { self.next_due = self.now + self.i; self.outstanding = false; } }
             Op::Stop => { self.running = false; self.outstanding = false; }
+            Op::Probe => {}
+            Op::Burst(a, n) => for c in &a[..*n as usize] {
+                self.apply(&match c { b's' => Op::Start, b'r' => Op::Reset, _ => Op::Stop }, None, now_after);
+            },
             Op::Adv(d) | Op::AdvNs(d) => {
                 self.now += d;
                 if self.running && self.next_due <= self.now { self.outstanding = true; self.next_due += self.i; }
@@ -112,13 +129,17 @@ fn run_seq(interval_s: u64, ops: &[Op]) -> String {
         let nosettle = std::env::var("RC_C20_NOSETTLE").is_ok();
         let settle = || async { for _ in 0..4 { tokio::task::yield_now().await; } };
         settle().await;
+        let mut broken = false;
         for op in ops {
-            if ideal.violates(op) { out.push("pre".into()); break; }
+            if !broken && ideal.violates(op) { out.push("pre".into()); broken = true; }
             let mut obs = None;
             match op {
                 Op::Start => t.start(),
                 Op::Reset => t.reset(),
                 Op::Stop => t.stop_and_reset(),
+                Op::Burst(a, n) => for c in &a[..*n as usize] { match c { b's' => t.start(), b'r' => t.reset(), _ => t.stop_and_reset() } },
+                Op::Probe => out.push(format!("q{}{}{}", t.is_running() as u8, t.verif_tick_pending() as u8,
+                    tokio::runtime::Handle::current().metrics().num_alive_tasks())),
                 Op::Adv(d) | Op::AdvNs(d) => tokio::time::advance(Duration::from_millis(*d)).await,
                 Op::Wait(d) => {
                     match tokio::time::timeout(Duration::from_millis(*d), t.tick()).await {
@@ -130,7 +151,7 @@ fn run_seq(interval_s: u64, ops: &[Op]) -> String {
             // RC_C20_NOSETTLE=1 (never set by ./check; for experiments): no settle after any plain advance either
             // after `AdvNs` the next operation (reset / stop / start) is called before the interval task runs
             if !(matches!(op, Op::AdvNs(_)) || (nosettle && matches!(op, Op::Adv(_)))) { settle().await; }
-            ideal.apply(op, obs, ms(tokio::time::Instant::now()));
+            if !broken { ideal.apply(op, obs, ms(tokio::time::Instant::now())); }
         }
         if out.is_empty() { "-".into() } else { out.join(" ") }
     })
@@ -180,6 +201,83 @@ impl Prop for C20 {
         };
         enumerate(8, d8, false, &mut v);
         enumerate(11, d11, true, &mut v);
+        // (3) beyond the precondition (blocked sender, Interval burst, reset / stop / start with two ticks outstanding)
+        // and the probe: every sequence up to depth 5 (thorough 6) over 9 letters
+        {
+            let i = I * 1000;
+            use Tok::*;
+            let beta = [One(Op::Start), One(Op::Reset), One(Op::Stop), One(Op::Adv(i)), One(Op::Adv(3 * i)), One(Op::Wait(0)), One(Op::Probe),
+                        Then(2 * i, Op::Reset), Then(2 * i, Op::Stop)];
+            let depth = if tier == Tier::Thorough { 6 } else { 5 };
+            let mut idx = vec![0usize; depth];
+            for d in 1..=depth {
+                for x in idx.iter_mut() { *x = 0; }
+                'seqs: loop {
+                    let ops: Vec<Tok> = (0..d).map(|k| beta[idx[k]]).collect();
+                    v.push(line(I, &ops));
+                    let mut k = d;
+                    loop {
+                        if k == 0 { break 'seqs; }
+                        k -= 1;
+                        idx[k] += 1;
+                        if idx[k] < beta.len() { break; }
+                        idx[k] = 0;
+                    }
+                }
+            }
+        }
+        // (3b) calls back to back (no await in between: the task of a `start` has not been polled once when it is stopped,
+        // restarted or reset): every sequence up to depth 3 over the 9 pairs and 27 triples of {s, r, x} plus
+        // {s, r, x, a(i/4), a(i), w(9i/8), w(i/8)}
+        {
+            let i = I * 1000;
+            use Tok::*;
+            let mut gamma = vec![One(Op::Start), One(Op::Reset), One(Op::Stop), One(Op::Adv(i / 4)), One(Op::Adv(i)), One(Op::Wait(i + i / 8)), One(Op::Wait(i / 8))];
+            let l = [b's', b'r', b'x'];
+            for a in l { for b in l { gamma.push(One(Op::Burst([a, b, 0], 2))); } }
+            for a in l { for b in l { for c in l { gamma.push(One(Op::Burst([a, b, c], 3))); } } }
+            let depth = 3;
+            let mut idx = vec![0usize; depth];
+            for d in 1..=depth {
+                for x in idx.iter_mut() { *x = 0; }
+                'seqs: loop {
+                    if idx[..d].iter().any(|k| *k >= 7) {
+                        let ops: Vec<Tok> = (0..d).map(|k| gamma[idx[k]]).collect();
+                        v.push(line(I, &ops));
+                    }
+                    let mut k = d;
+                    loop {
+                        if k == 0 { break 'seqs; }
+                        k -= 1;
+                        idx[k] += 1;
+                        if idx[k] < gamma.len() { break; }
+                        idx[k] = 0;
+                    }
+                }
+            }
+            // longer: a burst, then time, then awaits
+            for _ in 0..(if tier == Tier::Thorough { 50_000 } else { 1500 }) {
+                let mut ops: Vec<Tok> = vec![];
+                for _ in 0..rng.usize(2, 10) {
+                    ops.push(match rng.below(7) {
+                        0 | 1 | 2 => { let n = 2 + rng.below(2) as u8; let mut a = [0u8; 3]; for k in 0..n as usize { a[k] = *rng.pick(&l); } One(Op::Burst(a, n)) }
+                        3 => One(Op::Adv(*rng.pick(&[i / 4, i / 2, i, i + 1, 2 * i]))),
+                        4 => One(Op::Wait(*rng.pick(&[0, i / 8, i - 1, i, i + i / 8]))),
+                        5 => One(Op::Probe),
+                        _ => One(*rng.pick(&[Op::Start, Op::Reset, Op::Stop])) });
+                }
+                v.push(line(I, &ops));
+            }
+        }
+        // (4) interval 0: the spawned task panics in tokio::time::interval(0); the timer "runs" and never ticks
+        for _ in 0..(if tier == Tier::Thorough { 5000 } else { 150 }) {
+            use Tok::*;
+            let len = rng.usize(1, 12);
+            let ops: Vec<Tok> = (0..len).map(|_| match rng.below(8) {
+                0 | 1 => One(Op::Start), 2 => One(Op::Reset), 3 => One(Op::Stop), 4 => One(Op::Adv(*rng.pick(&[0, 1, 1000, 5000]))),
+                5 => One(Op::Probe), 6 => Then(1000, *rng.pick(&[Op::Start, Op::Reset, Op::Stop])), _ => One(Op::Wait(*rng.pick(&[0, 1, 1000, 20000]))) }).collect();
+            v.push(line(0, &ops));
+        }
         // random longer sequences, arbitrary durations, several intervals; biased towards histories
         // that keep the precondition (await after an advance that makes a tick fall due)
         let n = if tier == Tier::Thorough { 200_000 } else { 3000 };
@@ -190,7 +288,7 @@ impl Prop for C20 {
             let mut ops: Vec<Tok> = vec![];
             for _ in 0..len {
                 use Tok::*;
-                let op = match rng.below(19) {
+                let op = match rng.below(20) {
                     0 | 1 => One(Op::Start),
                     2 | 3 => One(Op::Reset),
                     4 => One(Op::Stop),
@@ -204,6 +302,7 @@ impl Prop for C20 {
                     14 => Then(*rng.pick(&[i, i, i / 2, i - 1, i + 1]), Op::Reset),
                     15 => Then(*rng.pick(&[i, i, i / 4, i + 1]), Op::Stop),
                     16 => Then(*rng.pick(&[i, i, i / 4, i - 1]), Op::Start),
+                    17 => One(Op::Probe),
                     _ => { ops.push(One(Op::Adv(*rng.pick(&[i / 4, i / 2, i])))); One(Op::Wait(*rng.pick(&[0, 1, i]))) }
                 };
                 ops.push(op);
@@ -218,7 +317,7 @@ impl Prop for C20 {
         match w.as_slice() {
             ["seq", i, ops] => {
                 let Ok(i) = i.parse::<u64>() else { return "bad-op".into() };
-                if i == 0 || i > 100_000 { return "bad-op".into(); }
+                if i > 100_000 { return "bad-op".into(); }
                 let Some(ops) = parse_ops(ops) else { return "bad-op".into() };
                 run_seq(i, &ops)
             }
@@ -239,6 +338,7 @@ impl Prop for C20 {
             if id.violates(op) { return Ok(()); } // precondition ends here: nothing more is claimed
             let mut obs = None;
             let mut now_after = id.now;
+            if let Op::Probe = op { toks.next().ok_or("reply too short")?; }
             if let Op::Wait(_) = op {
                 let t = toks.next().ok_or("reply too short")?;
                 if t == "pre" { return Err(format!("implementation run stopped at op {} where the precondition still holds", k)); }
@@ -269,8 +369,8 @@ impl Prop for C20 {
     fn class(&self, l: &str, reply: &str) -> String {
         let n_ops = l.split(' ').nth(2).map(|o| if o == "-" { 0 } else { o.split(',').count() }).unwrap_or(0);
         let ticks = reply.split(' ').filter(|t| t.starts_with('t')).count();
-        let cut = reply.ends_with("pre");
+        let cut = reply.split(' ').any(|t| t == "pre");
         format!("len{}:ticks{}{}", if n_ops <= 5 { n_ops.to_string() } else if n_ops <= 20 { "6-20".into() } else { "21-60".into() },
-            if ticks >= 3 { "3+".to_string() } else { ticks.to_string() }, if cut { ":cut-at-precondition" } else { "" })
+            if ticks >= 3 { "3+".to_string() } else { ticks.to_string() }, if l.starts_with("seq 0 ") { ":interval0" } else if cut { ":beyond-precondition" } else { "" })
     }
 }
